@@ -900,7 +900,7 @@ func (c *compiler) VisitUnaryExpr(e *ast.UnaryExpr) ast.VisitResult {
 		case c.ddpinttyp:
 			c.latestReturn = c.cbb.NewSub(zero, rhs)
 			c.latestReturnType = c.ddpinttyp
-		case c.ddpinttyp:
+		case c.ddpbytetyp:
 			c.latestReturn = c.cbb.NewSub(zero, c.floatOrByteAsInt(rhs, c.ddpbytetyp))
 			c.latestReturnType = c.ddpinttyp
 		default:
